@@ -18,3 +18,29 @@ Theorem C02_structure_checker_sound :
   forall (sc : scene) (l : law), check_scene sc l = true ->
   forall p, scene_clear sc p -> eval_law l (member sc p) = true.
 Proof. exact check_scene_sound. Qed.
+
+From GB Require Import Num Event Outcome FillQueue BoolOp Cert FieldsProofs.
+
+Theorem C02_partial_certified_run :
+  forall (N : Num) (conv : pt N -> option qpt) cfg fuel (A B : list (FillQueue.polygon N)) o,
+  cert02_run N conv cfg fuel A B o = true -> C02_reading_at N conv cfg fuel A B o.
+Proof. exact C02_partial. Qed.
+
+(** the twin of a coincident pair is never selected: a shared boundary piece enters the
+    result at most once *)
+Theorem C02_twin_not_selected :
+  forall (N : Num) (cfg : config) (e : event N) (o : operation),
+  e_edge_type e = NonContributing -> table cfg e o = RTNone.
+Proof. exact twin_not_selected. Qed.
+
+(** defect F1 (pinned code): the witness is mis-nested; the repaired code is certified *)
+Theorem C02_F1_witness_refuted :
+  cert02_run NumQ.NQ conv_Q pinned 1000 F1_A F1_B Union = false
+  /\ cert01_run NumQ.NQ conv_Q pinned 1000 F1_A F1_B Union = false
+  /\ (exists R, boolean_operation pinned 1000 F1_A F1_B Union = Ok R /\ length R = 1%nat).
+Proof. exact F1_refuted. Qed.
+
+Theorem C02_F1_witness_repaired :
+  cert02_run NumQ.NQ conv_Q release 1000 F1_A F1_B Union = true
+  /\ cert01_run NumQ.NQ conv_Q release 1000 F1_A F1_B Union = true.
+Proof. exact F1_repaired. Qed.
